@@ -234,7 +234,7 @@ def run(chk, replay=None):
                     for acts in itertools.product(("exec", "replug", "arm", "unplug"), repeat=3):
                         hist.append((detect, rw, acts + (tail,)))
         rng = random.Random(chk.seed)
-        for _ in range(200 if chk.quick else 3000):
+        for _ in range(200 if chk.quick else 10000):
             hist.append((rng.random() < 0.7, rng.random() < 0.5,
                          tuple(rng.choice(ALPHA[:5]) for _ in range(rng.randint(5, 40))) + (rng.choice(ALPHA[5:]),)))
         events = []
